@@ -287,7 +287,7 @@ def select(ctx, holes, per_key):
             nk = h["key"] + (tuple(h["frags"][h["hole"]]),)
             if nk in nexts:
                 continue
-        if count[k] >= (per_key if h["end"] else per_key * ctx.pick(2, 8)):
+        if count[k] >= (per_key if h["end"] else ctx.pick(2, 6)):
             continue
         if nk:
             nexts.add(nk)
@@ -428,14 +428,14 @@ def run(ctx, only_case=None):
     ctx.cov.update(ctx_slot_pairs=len(classes), candidate_pairs=len({h["key"][:4] for h in holes if not h["compat"]}),
                    root_causes_seen=len({h["key"][4] for h in holes if h["key"][4] != "none"}))
     # 2. confinement level
-    chosen = select(ctx, holes, ctx.pick(1, 3))
+    chosen = select(ctx, holes, 1)
     ccases = []
     via_seen = set()
     for h in chosen:
         ccases.append({"id": len(ccases) + 1, "frags": h["frags"], "hole": h["hole"], "via": "direct", "pt": h["pt"]})
         # the other ways of reaching the hole: quick, once per real (context, url) in a synchronised hole;
         # thorough, for every class
-        vk = (h["key"][:2] + (h["end"],)) if ctx.quick else (h["key"] + (h["end"],))
+        vk = (h["key"][:2] + (h["end"],)) if ctx.quick else (h["key"][:4] + (h["end"],))
         if (not ctx.quick or (h["key"][4] == "none" and h["agree"])) and vk not in via_seen:
             via_seen.add(vk)
             for v in VIAS:
